@@ -25,7 +25,7 @@ TRUSTED_BASE = [
     "the marker scan is decided on the implementation: a marker of 28 random alphanumerics is assumed not to occur by chance",
 ]
 ASSUMPTIONS = ["pairing messages and the relay server are not exercised (no account data is stored there; the pairing protocol is a noise channel)",
-               "external file attachments are exercised as embedded file secrets only (C17 is not built)",
+               "external file attachments are exercised as embedded file secrets only (external blobs: C17)",
                "wire buffers are the protocol encodings of the values DirectClient passes to the server helpers; TLS and HTTP framing add no plaintext"]
 
 
